@@ -190,6 +190,12 @@ func c08ScannerLoops(r *an.Run) {
 				r.Pass(key+"|bufio-scan", loopPos(l), "for scanner.Scan(): bufio.Scanner returns false at end of input or on the first error, and the loop leaves when it does")
 				continue
 			}
+			if phi, st, fld := chainWalker(l); phi != nil {
+				if linkFieldIsSetOnceAtCreation(r, st, fld) {
+					r.Pass(key+"|chain-walk", loopPos(l), "the loop walks down a chain of %s links: every value of %s that comes round is the link below the current one, and that field is only ever set when a link is created, to something that existed before (a chain is finite)", st.Obj().Name(), phi.Comment)
+					continue
+				}
+			}
 			if terminatesByWorklist(l) {
 				r.Pass(key+"|worklist", loopPos(l), "loop over a shrinking slice / finite iterator")
 				continue
